@@ -1352,6 +1352,11 @@ class Emitter:
                 if et is not None:
                     ct = self.ctype(et)
                     return ['VF_TYPED_MOVE(%s, %s, %s, %s);' % (ct, A[0], A[1], A[2])]
+                if all(not (args[k_][1][0] == 'local' and args[k_][1][1] in self.i8src) for k_ in (0, 1)):
+                    # genuine byte buffers (the pointers are i8* at the source level, e.g. string storage): CBMC's
+                    # built-in array copy is exact on char arrays and far cheaper than a byte loop through
+                    # pointers with several candidate objects (measured: one loop iteration took 60 s)
+                    fn = fn[3:]
             return ['if (%s) %s(%s, %s, %s);' % (A[2], fn, A[0], A[1], A[2])]   # a zero-length copy touches nothing (dest may be null)
         if name.startswith('llvm.memset.'):
             v0 = args[0][1]
